@@ -139,6 +139,7 @@ type World struct {
 	FaultActs     func() int // number of enabled fault actions (scenario-owned)
 	DoFault       func(i int)
 	ControlConns  []*BackendConn
+	DialAttempts  map[string][]time.Duration // every SUT dial (accepted or not), by address
 	ClockOn       bool // early clock advances allowed (off during boot and drain)
 	ClockBudget   int  // number of early clock advances left in this run
 }
@@ -221,6 +222,10 @@ func (w *World) NodeByAddr(addr string) *Node {
 
 // resolveDial decides a pending SUT dial (scheduler goroutine).
 func (w *World) resolveDial(d *simnet.PendingDial) {
+	if w.DialAttempts == nil {
+		w.DialAttempts = map[string][]time.Duration{}
+	}
+	w.DialAttempts[d.Addr] = append(w.DialAttempts[d.Addr], w.Now())
 	n := w.NodeByAddr(d.Addr)
 	if n == nil {
 		w.Logf("dial %s: no such node -> refused", d.Addr)
